@@ -177,6 +177,11 @@ def check(tier):
     declare(rep)
     io_array.declare_c06(rep)
     gs = run(rep, tier)
+    # a reloaded field must also ANSWER like the dumped one: state that is derived from the configuration (the Hilbert layer's curve
+    # side) has to be re-derived on the loading route
+    from . import c14_hilbert
+    rep.rule("C14.d-load", "a Hilbert field that came out of read_binary walks a square of side round_pow2(max of the extents read)", floor=1)
+    c14_hilbert.run_loaded(rep, tier)
     if not rep.violations:
         from . import c02
         c02.param_lint(rep)
